@@ -75,7 +75,8 @@ def generate_vasicek(
 
     init_state = cast_state(init_state, dtype, device)
 
-    if init_state[0] != 0:
+    if torch.as_tensor(theta).ne(0).any():
+        # reduce to the process around zero: X - theta is Vasicek with theta = 0
         new_init_state = (init_state[0] - theta,)
         return theta + generate_vasicek(
             n_paths=n_paths,
